@@ -88,7 +88,7 @@ def model_encode(model, cases):
     lines = []
     for c in cases:
         s = c["x"]["sty"]
-        lines += ["pder %s %s" % (s, c["vs"]), "puper 0 %s %s" % (s, c["vs"]), "puper 1 %s %s" % (s, c["vs"]), "poer %s %s" % (s, c["vs"])]
+        lines += ["sbder %s %s" % (s, c["vs"]), "sbuper 0 %s %s" % (s, c["vs"]), "sbuper 1 %s %s" % (s, c["vs"]), "sboer %s %s" % (s, c["vs"])]
     out = model_lines(model, lines, "encode")
     for i, c in enumerate(cases):
         c["der"], c["uper"], c["uperstd"], c["oer"] = out[4 * i:4 * i + 4]
@@ -363,7 +363,7 @@ def run_c01(run, rng, tier):
             if len(c["der"]) > 2 * BIG and not rng.chance(1, 3):
                 continue
             s = c["x"]["sty"]
-            for key, line in (("ber", "pberdec %s %s" % (s, c["der"])), ("uper", "puperdec 0 %s %s" % (s, c["uper"])), ("oer", "poerdec %s %s" % (s, c["oer"]))):
+            for key, line in (("ber", "sbberdec %s %s" % (s, c["der"])), ("uper", "sbuperdec 0 %s %s" % (s, c["uper"])), ("oer", "sboerdec %s %s" % (s, c["oer"]))):
                 if line.split()[-1] != "NONE":
                     lines.append(line)
                     slots.append((c, key))
